@@ -675,4 +675,265 @@ theorem conv_step (g : Grammar) (o : Opts) :
 theorem LInv_init (g : Grammar) : LInv g {} :=
   ⟨fun _ _ h => absurd h (by simp), fun _ _ h => absurd h (by simp), fun _ h => absurd h (by simp)⟩
 
+/-! ### the forced extraction of the root, and the output stage -/
+
+/-- what holds of the final state: every NonTerminal names a diagram entry -/
+structure Fin (g : Grammar) (s : St) : Prop where
+  fdg : ∀ u d, aget s.diagrams u = some d → d.name = customOf g u ∨ d.name = some ""
+  fnt : ∀ nd ∈ s.heap, nd.func = .nonTerminal → ∃ u d, aget s.diagrams u = some d ∧ d.name = some nd.text
+
+theorem Fin_of_LInv {g : Grammar} {s : St} (hl : LInv g s) (hp : ∀ u, ¬ Pend s u) : Fin g s := by
+  refine ⟨fun u d h => Or.inl (hl.dg u d h).1, ?_⟩
+  intro nd hnd hf
+  obtain ⟨u, hu, ht⟩ := hl.nt nd hnd hf
+  rcases ht with ⟨d, hd⟩ | ht
+  · exact ⟨u, d, hd, by rw [(hl.dg u d hd).1]; exact hu⟩
+  · exact absurd ht (hp u)
+
+theorem putChild_heap (s : St) (p i : Nat) (v : Slot) :
+    ∀ nd ∈ (s.putChild p i v).heap, ∃ n0 ∈ s.heap, nd.func = n0.func ∧ nd.text = n0.text := by
+  intro nd hnd
+  unfold St.putChild at hnd
+  split at hnd
+  · exact mem_modify_kw _ _ _ _ hnd
+  · exact mem_modify_kw _ _ _ _ hnd
+  · exact ⟨nd, hnd, rfl, rfl⟩
+
+theorem exNT_heap (s : St) (pos : EState) :
+    ∀ nd ∈ (exNT s pos).heap, (∃ n0 ∈ s.heap, nd.func = n0.func ∧ nd.text = n0.text) ∨
+      nd.text = pos.name.getD "" := by
+  intro nd hnd
+  unfold exNT at hnd
+  split at hnd
+  · obtain ⟨n0, hn0, e1, e2⟩ := putChild_heap _ _ _ _ nd hnd
+    simp only [newNT, St.alloc, List.mem_append, List.mem_singleton] at hn0
+    rcases hn0 with hn0 | rfl
+    · exact Or.inl ⟨n0, hn0, e1, e2⟩
+    · exact Or.inr e2
+  · exact Or.inl ⟨nd, hnd, rfl, rfl⟩
+
+theorem exNT_diagrams (s : St) (pos : EState) : (exNT s pos).diagrams = s.diagrams := by
+  unfold exNT; split <;> simp
+
+theorem final_extract (g : Grammar) (s0 : St) (idx root : Nat) (st2 : EState) (hl : LInv g s0)
+    (hp : ∀ u, ¬ Pend s0 u) (hsome : st2.name.isSome)
+    (hn : (st2.name = customOf g root) ∨ (st2.name = some "" ∧ truthy (customOf g root) = false)) :
+    Fin g (extractIntoDiagram (setL s0 idx root st2) root) := by
+  obtain ⟨c, e⟩ := extract_eq (setL s0 idx root st2) root st2 (by simp only [setL]; exact aget_aset_same _ _ _)
+  rw [e]
+  have hroot : aget (exFin (exNT (setL s0 idx root st2) st2) root st2 c).diagrams root =
+      some { name := st2.name, content := c, index := st2.number } := aget_aset_same _ _ _
+  have hother : ∀ u, u ≠ root → aget (exFin (exNT (setL s0 idx root st2) st2) root st2 c).diagrams u =
+      aget s0.diagrams u := by
+    intro u hu
+    simp only [exFin, aget_aset_ne _ _ _ _ hu, exNT_diagrams]
+    rfl
+  refine ⟨?_, ?_⟩
+  · intro u d hd
+    by_cases hu : u = root
+    · subst hu
+      rw [hroot] at hd
+      simp only [Option.some.injEq] at hd
+      subst hd
+      rcases hn with hn | hn
+      · exact Or.inl hn
+      · exact Or.inr hn.1
+    · rw [hother u hu] at hd
+      exact Or.inl (hl.dg u d hd).1
+  · intro nd hnd hf
+    have hnd' : nd ∈ (exNT (setL s0 idx root st2) st2).heap := hnd
+    rcases exNT_heap _ _ nd hnd' with ⟨n0, hn0, e1, e2⟩ | e2
+    · have hn0' : n0 ∈ s0.heap := hn0
+      obtain ⟨u, hu, ht⟩ := hl.nt n0 hn0' (e1 ▸ hf)
+      rcases ht with ⟨d, hd⟩ | ht
+      · by_cases hur : u = root
+        · subst hur
+          refine ⟨u, _, hroot, ?_⟩
+          show st2.name = some nd.text
+          rcases hn with hn | hn
+          · rw [hn, e2]; exact hu
+          · have := (hl.dg u d hd).2
+            rw [hn.2] at this; exact absurd this (by simp)
+        · exact ⟨u, d, by rw [hother u hur]; exact hd, by rw [(hl.dg u d hd).1, e2]; exact hu⟩
+      · exact absurd ht (hp u)
+    · refine ⟨root, _, hroot, ?_⟩
+      show st2.name = some nd.text
+      rw [e2]
+      cases hh : st2.name with
+      | none => rw [hh] at hsome; exact absurd hsome (by simp)
+      | some x => rfl
+
+theorem convertRoot_fin (g : Grammar) (o : Opts) (fuel root : Nat) (s : St)
+    (h : convertRoot g o fuel root = some s) : Fin g s := by
+  unfold convertRoot at h
+  split at h
+  · exact absurd h (by simp)
+  · rename_i r s0 hc
+    obtain ⟨hl, hp0, _⟩ := conv_step g o fuel root none 0 none {} r s0 hc (LInv_init g)
+    have hp : ∀ u, ¬ Pend s0 u := by
+      intro u hu
+      obtain ⟨st, hst, _⟩ := hp0 u hu
+      exact absurd hst (by simp)
+    split at h
+    · rename_i st hst
+      simp only [Option.some.injEq] at h
+      subst h
+      have hex : st.extract = false := by
+        cases he : st.extract with
+        | false => rfl
+        | true => exact absurd ⟨st, hst, he⟩ (hp root)
+      have hname : st.name = none := by
+        cases hn : st.name with
+        | none => rfl
+        | some x =>
+          have := (hl.lk root st hst).1 (by rw [hn]; rfl)
+          rw [hex] at this; exact absurd this (by simp)
+      by_cases ht : truthy ((g[root]?).bind (·.custom)) = true
+      · simp only [ht, Bool.not_true, Bool.false_eq_true, if_false]
+        rw [mark_eq g s0 root none true st hst]
+        simp only [Bool.true_or, if_true]
+        refine final_extract g s0 _ root _ hl hp ?_ (Or.inl ?_)
+        · simp only [markName, hname, ht, if_true]
+          exact truthy_isSome ht
+        · simp only [markName, hname, ht, if_true]
+          simp [truthy, customOf]
+      · have ht' : truthy ((g[root]?).bind (·.custom)) = false := by simpa using ht
+        simp only [ht', Bool.not_false, if_true]
+        have hl1 : aget (setL s0 s0.index root { st with name := some "" }).lookup root =
+            some { st with name := some "" } := aget_aset_same _ _ _
+        have e1 : ({ s0 with lookup := aset s0.lookup root { st with name := some "" } } : St) =
+            setL s0 s0.index root { st with name := some "" } := rfl
+        rw [e1, mark_eq g _ root none true _ hl1]
+        simp only [Bool.true_or, if_true]
+        rw [setL_setL]
+        have t1 : truthy (some "") = false := by decide
+        have t2 : truthy none = false := rfl
+        have hm : markName g { st with name := some "" } root none = some "" := by
+          simp only [markName, t1, t2, ht', Bool.false_eq_true, if_false]
+        refine final_extract g s0 _ root _ hl hp ?_ (Or.inr ⟨?_, ht'⟩)
+        · simp only [hm]; rfl
+        · simp only [hm]
+    · simp only [Option.some.injEq] at h
+      subst h
+      exact Fin_of_LInv hl hp
+
+theorem linksL_mem (ts : List Tree) (t : String) : t ∈ Tree.linksL ts ↔ ∃ tr ∈ ts, t ∈ tr.links := by
+  induction ts with
+  | nil => simp [Tree.linksL]
+  | cons a as ih => simp [Tree.linksL, ih]
+
+theorem resolve_links (heap : List PNode) : ∀ f slot t, t ∈ (resolve heap f slot).links →
+    ∃ nd ∈ heap, nd.func = .nonTerminal ∧ nd.text = t := by
+  intro f
+  induction f with
+  | zero =>
+    intro slot t ht
+    cases slot <;> simp [resolve, Tree.links] at ht
+  | succ f ih =>
+    intro slot t ht
+    cases slot with
+    | none => simp [resolve, Tree.links] at ht
+    | empty => simp [resolve, Tree.links] at ht
+    | ref r =>
+      unfold resolve at ht
+      split at ht
+      · simp [Tree.links] at ht
+      · rename_i n hn
+        have hmem : n ∈ heap := List.mem_of_getElem? hn
+        have key : ∀ ks, t ∈ (Tree.node n.func n.label n.text ks).links →
+            (∀ tr ∈ ks, t ∈ tr.links → ∃ nd ∈ heap, nd.func = .nonTerminal ∧ nd.text = t) →
+            ∃ nd ∈ heap, nd.func = .nonTerminal ∧ nd.text = t := by
+          intro ks hk hks
+          simp only [Tree.links, List.mem_append] at hk
+          rcases hk with hk | hk
+          · split at hk
+            · rename_i hf
+              simp only [List.mem_singleton] at hk
+              exact ⟨n, hmem, hf, hk.symm⟩
+            · exact absurd hk (by simp)
+          · obtain ⟨tr, htr, htl⟩ := (linksL_mem ks t).mp hk
+            exact hks tr htr htl
+        split at ht
+        · exact key [] ht (fun tr htr => absurd htr (by simp))
+        · refine key _ ht ?_
+          intro tr htr htl
+          simp only [List.mem_singleton] at htr
+          subst htr
+          exact ih _ _ htl
+        · refine key _ ht ?_
+          intro tr htr htl
+          obtain ⟨v, _, rfl⟩ := List.mem_map.mp htr
+          exact ih _ _ htl
+
+theorem dedupe_complete : ∀ (l : List DEntry) (seen : List (Option String)) (d : DEntry), d ∈ l →
+    d.name.isSome → d.name ≠ some "..." → d.name ∈ seen ∨ d.name ∈ (dedupe l seen).map (·.name) := by
+  intro l
+  induction l with
+  | nil => intro seen d hd; exact absurd hd (by simp)
+  | cons x xs ih =>
+    intro seen d hd hs hne
+    unfold dedupe
+    rcases List.mem_cons.mp hd with rfl | hd
+    · split
+      · rename_i h1; simp only [beq_iff_eq] at h1; exact absurd h1 hne
+      · split
+        · right; simp
+        · rename_i h2
+          left
+          simp only [hs, Bool.true_and, Bool.not_eq_true', List.contains_eq_mem, decide_eq_false_iff_not,
+            Decidable.not_not] at h2
+          exact h2
+    · split
+      · exact ih seen d hd hs hne
+      · split
+        · rcases ih (x.name :: seen) d hd hs hne with h | h
+          · rcases List.mem_cons.mp h with h | h
+            · right; simp [h]
+            · left; exact h
+          · right; simp only [List.map_cons, List.mem_cons]; right; exact h
+        · exact ih seen d hd hs hne
+
+theorem aget_mem {α} (l : List (Nat × α)) (k : Nat) (v : α) (h : aget l k = some v) : v ∈ l.map (·.2) := by
+  induction l with
+  | nil => exact absurd h (by simp [aget])
+  | cons p rest ih =>
+    obtain ⟨k', v'⟩ := p
+    unfold aget at h
+    split at h
+    · simp only [Option.some.injEq] at h; subst h; simp
+    · simp only [List.map_cons, List.mem_cons]; right; exact ih h
+
+/-- no element carries the custom name `"..."` (the name `_PendingSkip`/`...` gives its SkipTo, whose
+    diagram `to_railroad` drops) -/
+def noEllipsisName (g : Grammar) : Bool := g.all (fun n => n.custom != some "...")
+
+theorem customOf_ne_ellipsis {g : Grammar} (h : noEllipsisName g = true) (u : Nat) :
+    customOf g u ≠ some "..." := by
+  unfold customOf
+  cases hg : g[u]? with
+  | none => simp
+  | some n =>
+    have hmem : n ∈ g := List.mem_of_getElem? hg
+    unfold noEllipsisName at h
+    rw [List.all_eq_true] at h
+    have := h n hmem
+    simpa using this
+
+/-- every entry name that a link can carry is kept by the selection of `to_railroad` -/
+theorem selected_names {g : Grammar} {s : St} (hf : Fin g s) (hne : noEllipsisName g = true)
+    (u : Nat) (d : DEntry) (hd : aget s.diagrams u = some d) (hs : d.name.isSome) :
+    d.name ∈ (selected s).map (·.name) := by
+  have hmem := aget_mem _ _ _ hd
+  have hne' : d.name ≠ some "..." := by
+    rcases hf.fdg u d hd with h | h
+    · rw [h]; exact customOf_ne_ellipsis hne u
+    · rw [h]; decide
+  unfold selected
+  simp only
+  split
+  · rcases dedupe_complete _ [] d hmem hs hne' with h | h
+    · exact absurd h (by simp)
+    · exact h
+  · exact List.mem_map.mpr ⟨d, hmem, rfl⟩
+
 end PP.Diagram
